@@ -396,7 +396,9 @@ def main(argv=None):
         for e in known:
             if not e.get('replay'):
                 continue
-            v = do_replay(mod, e['replay'])
+            # other open findings do not mask the one being replayed
+            v = do_replay(mod, e['replay'],
+                          [k for k in open_keys if k != e['key']])
             if e['status'] == 'open':
                 if v is not None and v.key == e['key']:
                     known_lines.append(
